@@ -12,6 +12,16 @@ CHECKS = {
         "note": "Trusted: Python ast, the E1 resolver, numpy elementwise/indexing semantics, cos/sin treated as uninterpreted functions, the reference forms written from the property statement.",
         "technique": "static analysis: abstract evaluation of kernels to polynomial normal forms (dataflow with joins) + canonical-form equality with reference; call-site argument agreement between sibling branches",
     },
+    "C03": {
+        "text": "Decides the structural clauses of masked PSF blurring for every mask, odd kernel shape (non-square included) and signed kernel/image/matrix: frame construction is "
+                "target = source - floor(K/2) + (i,j) per axis with each half-width taken from its own kernel dimension and paired with kernel[i,j] (flipped, centred convolution), recorded iff in-frame and "
+                "unmasked, one slot per entry; the three scatter kernels accumulate value[a]*frame_kernel[a,r] into out[frame_index[a,r]] for exactly r < length[a] onto zeros with no other guard; the matrix "
+                "variant is that operator per column with only a zero-test of the entry (holds for negative entries); image and blurring frames come from one routine on identical arguments; pixel numbering is "
+                "slim-order; even kernels are rejected on both axes before any effect at the 4 entry points; whole-frame convolution is scipy convolve2d(native, kernel.native, 'same') slimmed on the mask it is returned on. "
+                "Not decided: numerical equality with scipy, the zero-residual simulator/fit clause.",
+        "note": "Trusted: Python ast, E1 resolver, numpy indexing semantics, scipy.signal.convolve2d, the reference forms.",
+        "technique": "static analysis: abstract evaluation of kernels to polynomial normal forms + canonical-form equality; slim-traversal typestate; must-raise dominance; zero-test guard rule",
+    },
 }
 
 NOT_APPLICABLE = {f"C{n:02d}": PENDING for n in range(1, 21) if f"C{n:02d}" not in CHECKS}
